@@ -231,6 +231,13 @@ theorem reconsider_moves_to_best_partial (s : State) (h : Hash) (c : Option Hash
     (hl : lookup s.idx h = some n) (hv : (s.status h).valid = true) : (reconsider s h c).1 = s :=
   reconsider_valid_noop s h c n hl hv
 
+/-- The executable Spec the driver consults after every op (`Spec.chainWork`, the work of the valid
+delivered chain ending in `h` that avoids `X`) is sound for the relational Spec: so a driver answer
+`!spec/…` really exhibits a valid delivered chain with more work than the model's (= the code's) tip. -/
+theorem spec_exec_sound (D : List BlockAbs) (X : List Hash) (fuel : Nat) (h : Hash) (w : Nat)
+    (hw : chainWork D X fuel h = some w) : ValidChainEx D X h w :=
+  chainWork_sound D X fuel h w hw
+
 /-! ### 6. pinned constants -/
 
 theorem pin_maxOrphans : Generated.C02.maxOrphanBlocks = (maxOrphans : Int) := by decide
